@@ -35,10 +35,10 @@ def universes(tier, seed):
     else:
         out.append(("MULTI3", [("idx", 3, i) for i in U.catalogue("multi")], ALL))
         out.append(("NFVS3_multi", [("idx", 3, i) for i in U.catalogue("nfvs_multi")], ALL))
-        out.append(("F3c", [("idx", 3, i) for i in U.F3_indices(True)], ALL[:3]))
-        out.append((f"MAA3[{seed % 16}/16]", [("idx", 3, i) for i in U.shard(U.catalogue("maa"), seed, 16)], ALL))
-        out.append((f"NFVS3[{seed % 64}/64]", [("idx", 3, i) for i in U.shard(U.catalogue("nfvs"), seed, 64)], ALL[:2]))
-        out.append(("P4c", [("p4", a, b) for a, b in U.P4_pairs(True)], ALL[:2]))
+        out.append((f"F3c[{seed % 2}/2]", [("idx", 3, i) for i in U.shard(U.F3_indices(True), seed, 2)], ALL[:3]))
+        out.append((f"MAA3[{seed % 32}/32]", [("idx", 3, i) for i in U.shard(U.catalogue("maa"), seed, 32)], ALL[:3]))
+        out.append((f"NFVS3[{seed % 128}/128]", [("idx", 3, i) for i in U.shard(U.catalogue("nfvs"), seed, 128)], ALL[:2]))
+        out.append((f"P4c[{seed % 2}/2]", [("p4", a, b) for a, b in U.shard(U.P4_pairs(True), seed, 2)], ALL[:2]))
         out.append((f"U3c[idx={seed % 509} mod 509]", [("idx", 3, i) for i in U.U3c_shard(seed, 509)], [ALL[0]]))
     return out
 
@@ -57,7 +57,7 @@ def plan(tier, seed):
         hist = [("k", k) for k, n in K.items() if n.n <= 4] + [("idx", 2, i) for i in U.U2c_indices()]
     d = 1 if tier == "quick" else 2
     for spec in hist:
-        units.append(("hist", "K+U2c", [spec], d))
+        units.append(("hist", "K+U2c", [spec], d if len(U.resolve(spec).sd[0]) <= 3 else 1))
     units.sort(key=lambda u: u[0] != "hist")
     return {
         "units": units, "universes": {**{n: len(s) for n, s, _ in us}, f"history states depth {d} (K n<=4, U2c)": len(hist)},
